@@ -45,6 +45,8 @@ def parseOp (ws : List String) : Option Op :=
   | ["umount", p, n] => do pure (.umount (← p.toNat?) (← bytesOfHex n))
   | ["rmnode", i] => do pure (.rmnode (← i.toNat?))
   | ["split", d] => do pure (.split (← bytesOfHex d))
+  | ["wfault", k, m] => do pure (.wfault (← k.toNat?) (← m.toNat?))
+  | ["xclose", k] => do pure (.xclose (← k.toNat?))
   | op :: rest =>
     if op.startsWith "t" then (frontOp? (op.drop 1).toString rest).map (.front true)
     else if op.startsWith "r" then (frontOp? (op.drop 1).toString rest).map (.front false)
